@@ -5,8 +5,14 @@
 // interval) and `parse_line` (assumed), and the prologue of `index_chroms`.  Property (C18, first
 // clause): "Indexing a chromosome-grouped BED or bedGraph file yields exactly the byte offset of the
 // first line of each chromosome run, or reports that the file is not grouped."
-// Proved here: SAFETY (every recorded (offset, chrom) names the line that starts at that offset; offsets
-// are ordered; no panic except the depth limit, which is an explicit assumption) and termination.
+// Proved here for the list that do_index builds (the dedup/sort epilogue is outside the Verus subset):
+//  SAFETY       every recorded (offset, chrom) names the line that starts at that offset (this needs the
+//               `line.clear()` before every parsed `read_line`); offsets strictly increase;
+//  COMPLETENESS for a grouped file every run start is recorded;
+//  NO PANIC     every `.unwrap()` is on a live handle / non-empty line; the depth-limit `panic!` is
+//               unreachable for files under 2^49 bytes (potential argument, lemma_depth_bound);
+//  TERMINATION  of the recursion (`limit`) and of the scan loop.
+// NOT proved: that an ungrouped file is reported (it is not: see NOTES.md), anything about the epilogue.
 use vstd::prelude::*;
 use vstd::std_specs::cmp::PartialEqSpecImpl;
 verus! {
@@ -303,6 +309,86 @@ proof fn lemma_depth_pos(c: Seq<u8>, a: int, b: int)
     reveal_with_fuel(depth_needed, 2);
 }
 
+// ---------------- the depth limit: 100 levels suffice for files under 2^49 bytes ----------------
+/// the last line start before b (1 <= b <= |c|)
+pub open spec fn pls(c: Seq<u8>, b: int) -> int
+    decreases b
+{
+    if b <= 1 { 0 } else if c[b - 2] == 10u8 { b - 1 } else { pls(c, b - 1) }
+}
+proof fn lemma_pls(c: Seq<u8>, b: int)
+    requires 1 <= b <= c.len(),
+    ensures
+        0 <= pls(c, b) < b,
+        is_line_start(c, pls(c, b)),
+        forall|q: int| pls(c, b) < q < b ==> !is_line_start(c, q),
+    decreases b,
+{
+    if b <= 1 { } else if c[b - 2] == 10u8 { } else { lemma_pls(c, b - 1); }
+}
+pub open spec fn p2(n: nat) -> int
+    decreases n
+{
+    if n == 0 { 1 } else { 2 * p2((n - 1) as nat) }
+}
+/// Potential argument: with L = b - a and M = (start of the last line of [a, b)) - a, the bisection
+/// only recurses when L < 2M, and both halves have L'M' <= LM/2.  So the depth is at most
+/// 1 + (number of bits of L*M).
+proof fn lemma_depth_bound(c: Seq<u8>, a: int, b: int, n: nat)
+    requires
+        0 <= a < b <= c.len(), is_line_start(c, a),
+        (b - a) * (pls(c, b) - a) < p2(n),
+    ensures depth_needed(c, a, b) <= n + 1,
+    decreases n,
+{
+    reveal_with_fuel(depth_needed, 2);
+    let ll = b - a;
+    let s = pls(c, b);
+    let mm = s - a;
+    lemma_pls(c, b);
+    let mid = (a + b) / 2;
+    let t = nls(c, mid);
+    lemma_nls(c, mid);
+    if t < b {
+        lemma_pls(c, t);
+        let s1 = pls(c, t);
+        assert(t <= s);
+        assert(a <= s1 <= mid);
+        assert(2 * (mid - a) <= ll);
+        assert(2 * (b - t) <= ll - 1);
+        assert(ll + 1 <= 2 * mm);
+        assert(ll * mm >= 1) by (nonlinear_arith) requires ll >= 1, mm >= 1;
+        assert(n >= 1);
+        // left half
+        let l1 = t - a; let m1 = s1 - a;
+        assert(2 * (l1 * m1) <= ll * mm) by (nonlinear_arith)
+            requires 0 <= l1 <= mm, 0 <= m1, 2 * m1 <= ll;
+        // right half
+        let l2 = b - t; let m2 = s - t;
+        assert(4 * (l2 * m2) <= 2 * (ll * mm)) by (nonlinear_arith)
+            requires 0 <= m2 <= l2, 0 <= 2 * l2 <= ll - 1, ll + 1 <= 2 * mm, ll >= 1,
+        {
+            assert(l2 * m2 <= l2 * l2);
+            assert((2 * l2) * (2 * l2) <= ll * ll);
+            assert(ll * ll <= ll * (2 * mm));
+        }
+        lemma_depth_bound(c, a, t, (n - 1) as nat);
+        lemma_depth_bound(c, t, b, (n - 1) as nat);
+    }
+}
+proof fn lemma_depth_100(c: Seq<u8>)
+    requires 0 < c.len() < 0x2_0000_0000_0000,
+    ensures depth_needed(c, 0, c.len() as int) <= 100,
+{
+    let len = c.len() as int;
+    lemma_pls(c, len);
+    let m = pls(c, len);
+    assert(p2(98) == 0x2_0000_0000_0000 * 0x2_0000_0000_0000) by (compute);
+    assert(len * m < 0x2_0000_0000_0000 * 0x2_0000_0000_0000) by (nonlinear_arith)
+        requires 0 <= m < len, len < 0x2_0000_0000_0000;
+    lemma_depth_bound(c, 0, len, 98);
+}
+
 /// nothing inserted is a splice
 proof fn lemma_splice_none(c: Seq<u8>, o: CList, p: int, lo: int, hi: int)
     requires 0 <= p < o@.len(),
@@ -499,7 +585,7 @@ proof fn lemma_spliced_covered(c: Seq<u8>, o: CList, n: CList, p: int, lo: int, 
 //@sub /ListIndex/ => CIndex
 //@sub /io::Error/ => IoError
 //@sub /next\s*\.map\(\|next\| chroms\.get\(next\)\.unwrap\(\)\.0\)\s*\.unwrap_or\(file_size\)/ => (match next { Some(next) => chroms.get(next).unwrap().0, None => file_size }) min=0
-//@sub /next\s*\.map\(\|next\| \{(.*?)\}\)\s*\.unwrap_or\(true\)/ => (match next { Some(next) => {\1}, None => true }) min=0
+//@sub /next\s*\.map\(\|next\| \{(.*?)\}\)\s*\.unwrap_or\((\w+)\)/ => (match next { Some(next) => {\1}, None => \2 }) min=0
 //@ret r
 //@sig
     requires
@@ -513,7 +599,7 @@ proof fn lemma_spliced_covered(c: Seq<u8>, o: CList, n: CList, p: int, lo: int, 
         offsets_sorted(old(chroms)@),
         (old(chroms)@[old(chroms).pos(prev)].0 as int) < next_tell_of(*old(chroms), next, file_size) <= file_size,
         next is Some ==> is_line_start(old(file).content(), next_tell_of(*old(chroms), next, file_size)),
-        [[L: pre/ASSUMED_depth_budget_suffices]]
+        [[L: pre/depth_budget_suffices]]
         depth_needed(old(file).content(), old(chroms)@[old(chroms).pos(prev)].0 as int, next_tell_of(*old(chroms), next, file_size)) <= limit,
     ensures
         [[L: file_content_unchanged]]
@@ -564,10 +650,13 @@ proof fn lemma_spliced_covered(c: Seq<u8>, o: CList, n: CList, p: int, lo: int, 
                         (if file.pos() < b { b - file.pos() } else { 0 }),
 //@at /^\s*loop \{\s*$/ before
                 let ghost mut sp: int = a;
-                proof { lemma_splice_none(c, l0, p, a, b); }
+                proof {
+                    lemma_splice_none(c, l0, p, a, b);
+                    assert forall|s: int| #[trigger] run_ends_at(c, s) && a <= s && nls(c, s) < a implies has_offset(l0@, nls(c, s)) by { lemma_nls(c, s); }
+                }
 //@at /let chrom = match parse_line\(/ before
                     proof { lemma_nls(c, tell as int); }
-//@at /if chrom != chroms\.get\(last\)/ before
+//@at /^\s*if chrom .*chroms\.get\(/ before
                     let ghost m = *chroms;
                     let ghost q = chroms.pos(last);
                     let ghost sp_old = sp;
@@ -575,7 +664,7 @@ proof fn lemma_spliced_covered(c: Seq<u8>, o: CList, n: CList, p: int, lo: int, 
                     proof {
                         let t = tell as int;
                         let t2 = nls(c, t);
-                        // run starts before the next line: recorded already, or the current line is one
+                        // run starts before the next line: recorded already, or the current line is one [[L: scan/a_run_start_is_the_line_after_the_previous_line]]
                         assert forall|s: int| #[trigger] run_ends_at(c, s) && a <= s && nls(c, s) < t2
                             implies has_offset(m@, nls(c, s)) || (nls(c, s) == t && t > a && s == sp_old) by {
                             lemma_nls(c, s);
@@ -628,8 +717,8 @@ proof fn lemma_spliced_covered(c: Seq<u8>, o: CList, n: CList, p: int, lo: int, 
         let ghost q = p + 1 + (l2@.len() - l1@.len());
         proof {
             if !left { lemma_splice_none(c, l1, p, a, tell as int); }
-            assert(spliced(c, l1, l2, p, a, tell as int));
-            lemma_spliced_len(c, l1, l2, p, a, tell as int);
+            assert(spliced(c, l1, l2, p, a, tell as int)); [[L: left_half_only_splices_between_prev_and_probe]]
+            lemma_spliced_len(c, l1, l2, p, a, tell as int); [[L: handles_survive_the_left_half]]
             lemma_spliced_handle(c, l1, l2, p, a, tell as int, prev);
             lemma_spliced_handle(c, l1, l2, p, a, tell as int, curr);
             if let Some(n) = next { lemma_spliced_handle(c, l1, l2, p, a, tell as int, n); }
@@ -639,8 +728,8 @@ proof fn lemma_spliced_covered(c: Seq<u8>, o: CList, n: CList, p: int, lo: int, 
         proof {
             let l3 = *chroms;
             if !right { lemma_splice_none(c, l2, q, tell as int, b); }
-            assert(spliced(c, l2, l3, q, tell as int, b));
-            assert forall|i: int| p < i <= q implies (#[trigger] l2@[i]).0 <= tell by {
+            assert(spliced(c, l2, l3, q, tell as int, b)); [[L: right_half_only_splices_between_probe_and_next]]
+            assert forall|i: int| p < i <= q implies (#[trigger] l2@[i]).0 <= tell by { [[L: stretch_is_assembled_in_offset_order]]
                 if i < q { lemma_spliced_new(c, l1, l2, p, a, tell as int, i); }
             }
             lemma_splice_then(c, l0, l2, l3, p, q, a, b, tell as int, b);
@@ -650,18 +739,18 @@ proof fn lemma_spliced_covered(c: Seq<u8>, o: CList, n: CList, p: int, lo: int, 
                 assert forall|s: int| #[trigger] run_ends_at(c, s) && a <= s && nls(c, s) < b implies has_offset(l3@, nls(c, s)) by {
                     let u = nls(c, s);
                     lemma_nls(c, s);
-                    if u < t {
+                    if u < t { [[L: bisect/run_starts_left_of_the_probe_are_recorded_or_excluded_by_groupedness]]
                         if left {
                             assert(has_offset(l2@, u));
                             lemma_spliced_has(c, l2, l3, q, t, b, u);
                         } else {
                             lemma_no_run_end_inside(c, a, t, s);
                         }
-                    } else if u == t {
+                    } else if u == t { [[L: bisect/a_run_start_at_the_probe_is_recorded]]
                         assert(has_offset(l1@, t)) by { assert(l1@[p + 1].0 == t); }
                         lemma_spliced_has(c, l1, l2, p, a, t, t);
                         lemma_spliced_has(c, l2, l3, q, t, b, t);
-                    } else {
+                    } else { [[L: bisect/run_starts_right_of_the_probe_are_recorded_or_excluded_by_groupedness]]
                         if s < t { lemma_nls_le_cut(c, s, t); }
                         if right {
                             assert(has_offset(l3@, u));
@@ -691,18 +780,17 @@ proof fn lemma_spliced_covered(c: Seq<u8>, o: CList, n: CList, p: int, lo: int, 
         [[L: pre]]
         file.pos() == 0,
         2 * file.content().len() <= u64::MAX,
-        [[L: pre/ASSUMED_depth_budget_100_suffices]]
-        depth_needed(file.content(), 0, file.content().len() as int) <= 100,
+        [[L: pre/file_smaller_than_2_pow_49_bytes]]
+        file.content().len() < 0x2_0000_0000_0000,
     ensures
         [[L: empty_file_is_an_error]]
         file.content().len() == 0 ==> r is Err,
 //@open
     let ghost c = file.content();
 //@at /let first = chroms\.insert_first\(/ before
-    proof {
-        assert(line.text() =~= line_at(c, 0));
-    }
-    assert(entry_ok(c, (0u64, chrom))); [[L: first_entry_is_offset_zero_with_the_first_lines_chrom]]
+    assert(line.text() =~= line_at(c, 0)); [[L: buffer_holds_exactly_the_first_line]]
+//@at /let first = chroms\.insert_first\(/ after
+    assert(chroms@.len() == 1 && chroms@[0].0 == 0 && entry_ok(c, chroms@[0])); [[L: first_entry_is_offset_zero_with_the_first_lines_chrom]]
 //@at /finish_index\(chroms\)/ before
     // what is handed to the (unverified) epilogue
     assert(all_ok(c, chroms@)); [[L: every_entry_names_the_line_at_its_offset]]
@@ -715,7 +803,10 @@ proof fn lemma_spliced_covered(c: Seq<u8>, o: CList, n: CList, p: int, lo: int, 
     assert(grouped(c) ==> covered(c, chroms@, 0, c.len() as int)); [[L: every_run_start_of_a_grouped_file_is_in_the_list]]
 //@at /let file_size = file\.seek\(/ after
     let ghost l_first = chroms;
-    proof { assert(l_first@[0].0 == 0 && l_first@.len() == 1); }
+    proof {
+        assert(l_first@[0].0 == 0 && l_first@.len() == 1);
+        lemma_depth_100(c); [[L: depth_limit_100_suffices_below_2_pow_49_bytes]]
+    }
 //@end
 
 } // verus!
